@@ -17,6 +17,10 @@ def admissible(rng):
     lo = ratio * hi
     if lo >= hi:
         lo = hi / 2
+    if rng.random() < 0.12:
+        # a small cycle on a high mean (typical rainflow output): range of 1e-3 .. 1e-9 of the stress level
+        hi = rng.choice([300.0, 120.0, 2.5e8, 41.5])
+        lo = hi * (1 - rng.choice([1e-3, 6e-6, 1e-7, 1e-9]))
     n = rng.choice([1.0, 1.0, 1.25, 1.5, 2.0, 3.0, rng.uniform(1.0, 4.0)])
     mean = n * (lo + hi) / 2
     strength = max(mean, 0.0) * rng.choice([1.05, 1.3, 2.0, 5.0, 20.0]) + rng.choice([0.01, 0.5, 3.0])
@@ -49,7 +53,8 @@ def explore(res, rng, n):
             # consequences (metamorphic, on the implementation): homogeneity, monotone in n, ordering
             try:
                 s2 = float(f([3 * lo, 3 * hi], 3 * st, nn))
-                if not gen.close(s2, 3 * s, 1e-9):
+                # (the amplitude ( hi - lo ) / 2 of a narrow range carries the rounding of 3 * lo, 3 * hi: ulp( hi ) / ( hi - lo ) relative)
+                if not gen.close(s2, 3 * s, 1e-9 + 4e-16 * max(abs(lo), abs(hi)) / (hi - lo)):
                     res.failures.append({'signature': f'C09:{fname}:homogeneity:{lo}:{hi}:{st}:{nn}', 'clause': 'degree-one homogeneity',
                                          'api': fname, 'input': [lo, hi, st, nn], 'impl_output': [s, s2]})
                 if lo + hi > 0:
@@ -97,7 +102,7 @@ def explore(res, rng, n):
         if i % 5 == 1:
             import numpy as np
             lo_i, hi_i = rng.choice([(15000, 25000), (-100, 100), (100, 200), (11000, 12000), (0, 30000)])
-            st_i, n_i = float(rng.choice([40000, 400, 100000])), rng.choice([1, 1.0, 2, 3, 1.5])
+            st_i, n_i = float(rng.choice([40000, 400, 100000, 60000, 400000])), rng.choice([1, 1.0, 2, 3, 1.5])
             res.stat('narrow_integer_and_float32_arrays')
             for kind, fname in FNS.items():
                 f = getattr(lcc, fname)
@@ -111,6 +116,12 @@ def explore(res, rng, n):
                     if info is None or (info.min <= lo_i and hi_i <= info.max):
                         variants[np.dtype(dt).name + '-array'] = (lambda dt=dt: f(np.array([lo_i, hi_i], dtype=dt), st_i, n_i))
                 variants['numpy-int-strength'] = lambda: f([float(lo_i), float(hi_i)], np.int64(int(st_i)), n_i)
+                # the strength read from an integer table: the narrowest type that holds it (its square need not fit)
+                for dt in (np.int16, np.uint16, np.int32, np.uint32):
+                    if st_i <= np.iinfo(dt).max:
+                        variants[np.dtype(dt).name + '-strength'] = (lambda dt=dt: f([float(lo_i), float(hi_i)], dt(int(st_i)), n_i))
+                        break
+                variants['int32-strength'] = lambda: f([float(lo_i), float(hi_i)], np.int32(int(st_i)), n_i)
                 variants['float32-scalars'] = lambda: f([float(lo_i), float(hi_i)], np.float32(st_i), np.float32(n_i))
                 for vn, call in variants.items():
                     res.evaluations += 1
@@ -140,7 +151,10 @@ def explore(res, rng, n):
                 pass
     for (fname, args, s), a in zip(meta, core.driver_batch(reqs)):
         r = gen.unbits(a)
-        if not (abs(r) <= 1e-9):
+        # the residual is relative (terms of order 1 / n); for a narrow range the amplitude ( hi - lo ) / 2 - in the code formed from the
+        # range already multiplied by n - carries ulp( n * hi ) / ( hi - lo ) of rounding, and so does the term sa / s
+        lo_, hi_ = args[0], args[1]
+        if not (abs(r) <= 1e-9 + 1e-15 * max(abs(lo_), abs(hi_)) / (hi_ - lo_)):
             res.failures.append({'signature': f'C09:{fname}:defining-equation:n={"1" if args[3] == 1.0 else "not1"}:' +
                                  ':'.join(repr(x) for x in args), 'clause': 'defining equation residual %r' % r,
                                  'api': fname, 'input': list(args), 'impl_output': s})
